@@ -32,6 +32,7 @@ pub fn run(name: &str, seed: u64, rest: &[String]) -> String {
         "wdt_roundtrip" => wdt_roundtrip(seed),
         "ffi_cursor" => ffi_cursor(seed),
         "m2_records" => m2_records(seed),
+        "mpq_interop" => mpq_interop(seed),
         "wdl_roundtrip" => wdl_roundtrip(seed),
         "blp_alpha" => blp_codec(seed, true),
         "blp_header" => blp_codec(seed, false),
@@ -911,4 +912,84 @@ fn m2_records(seed: u64) -> String {
                   Ok(Err(e)) => return fail("m2_records", format!("M2Track version {} bytes {:02x?}", version, tb), e, "write(parse(bytes)) == bytes".into()), _ => {} }
     }
     none("m2_records", tried)
+}
+
+/// A minimal INDEPENDENT reader written from the published MPQ format (V1 header offsets, table keys
+/// hash("(hash table)") / hash("(block table)"), reference hash/cipher, published flag values, FIX_KEY formula):
+/// it must be able to extract what ArchiveBuilder writes (stored single-unit files, plain / encrypted / FIX_KEY).
+fn mpq_interop(seed: u64) -> String {
+    use wow_mpq::{ArchiveBuilder, ListfileOption};
+    let mut rng = Rng(seed ^ 0x1A7E);
+    let mut tried = 0;
+    let rd32 = |b: &[u8], o: usize| u32::from_le_bytes([b[o], b[o + 1], b[o + 2], b[o + 3]]);
+    for round in 0..12 {
+        let dir = tempfile::tempdir().unwrap();
+        let path = dir.path().join("i.mpq");
+        let mut files: Vec<(String, Vec<u8>, bool, bool)> = (0..4).map(|i| {
+            let n = 4 * (1 + (rng.next() % 40) as usize);
+            (format!("file{}_{}.dat", round, i), rng.bytes(n), i % 2 == 1, i == 3)
+        }).collect();
+        // one compressible FIX_KEY file stored zlib-compressed (single unit): the key must use the UNCOMPRESSED size
+        let text: Vec<u8> = (0..900).map(|i| b"lorem ipsum dolor sit amet "[i % 27]).collect();
+        files.push((format!("text{}.txt", round), text, true, true));
+        let mut b = ArchiveBuilder::new().listfile_option(ListfileOption::None);
+        for (i, (name, data, enc, fix)) in files.iter().enumerate() {
+            let method = if i == 4 { 2 } else { 0 };
+            b = if *enc { b.add_file_data_with_encryption(data.clone(), name, method, *fix, 0) } else { b.add_file_data_with_options(data.clone(), name, method, false, 0) };
+        }
+        if let Err(e) = b.build(&path) { return fail("mpq_interop", format!("{} files", files.len()), format!("build Err({})", e), "Ok".into()); }
+        let raw = std::fs::read(&path).unwrap();
+        tried += 1;
+        if &raw[0..4] != b"MPQ\x1a" { return fail("mpq_interop", "header".into(), format!("magic {:02x?}", &raw[0..4]), "MPQ\\x1A".into()); }
+        let hsize = rd32(&raw, 4) as usize;
+        let fmt = u16::from_le_bytes([raw[12], raw[13]]);
+        let hpos = rd32(&raw, 16) as usize; let bpos = rd32(&raw, 20) as usize;
+        let hn = rd32(&raw, 24) as usize; let bn = rd32(&raw, 28) as usize;
+        if hsize != 32 || fmt != 0 { return fail("mpq_interop", "V1 header".into(), format!("header size {} format {}", hsize, fmt), "32 / 0".into()); }
+        if !hn.is_power_of_two() || hpos + hn * 16 > raw.len() || bpos + bn * 16 > raw.len() { return fail("mpq_interop", "table positions".into(), format!("hash table {}@{} block table {}@{} in {} bytes", hn, hpos, bn, bpos, raw.len()), "inside the file".into()); }
+        let words = |o: usize, n: usize| -> Vec<u32> { (0..n * 4).map(|i| rd32(&raw, o + i * 4)).collect() };
+        let ht = decrypt(&words(hpos, hn), hash(b"(hash table)", 0x300));
+        let bt = decrypt(&words(bpos, bn), hash(b"(block table)", 0x300));
+        for (name, data, enc, fix) in &files {
+            let nb = name.as_bytes();
+            let (a, bb, mut idx) = (hash(nb, 0x100), hash(nb, 0x200), (hash(nb, 0) as usize) & (hn - 1));
+            let mut found = None;
+            for _ in 0..hn {
+                let e = &ht[idx * 4..idx * 4 + 4];
+                if e[3] == 0xFFFF_FFFF { break; }
+                if e[0] == a && e[1] == bb && e[3] < 0xFFFF_FFFE { found = Some(e[3] as usize); break; }
+                idx = (idx + 1) & (hn - 1);
+            }
+            let bi = match found { Some(i) if i < bn => i, _ => return fail("mpq_interop", format!("independent lookup of {} (hash table decrypted with the published key, published probing)", name), "not found".into(), "found".into()) };
+            let e = &bt[bi * 4..bi * 4 + 4];
+            let (pos, csize, fsize, flags) = (e[0] as usize, e[1] as usize, e[2] as usize, e[3]);
+            if flags & 0x8000_0000 == 0 { return fail("mpq_interop", format!("block entry of {} (block table decrypted with the published key 0xEC83B3A3)", name), format!("flags {:#010x}", flags), "EXISTS (0x80000000) set".into()); }
+            if (flags & 0x0001_0000 != 0) != *enc || (flags & 0x0002_0000 != 0) != (*enc && *fix) { return fail("mpq_interop", format!("flags of {}", name), format!("{:#010x}", flags), format!("ENCRYPTED={} FIX_KEY={}", enc, enc & fix)); }
+            if fsize != data.len() || pos + csize > raw.len() { return fail("mpq_interop", format!("sizes of {}", name), format!("file_size {} csize {} pos {}", fsize, csize, pos), format!("file_size {}", data.len())); }
+            let mut body = raw[pos..pos + csize].to_vec();
+            if *enc {
+                let base = hash(nb, 0x300);
+                let key = if *fix { base.wrapping_add(pos as u32) ^ (fsize as u32) } else { base };
+                let full = body.len() / 4 * 4;
+                let w: Vec<u32> = body[..full].chunks(4).map(|c| u32::from_le_bytes([c[0], c[1], c[2], c[3]])).collect();
+                let mut dec: Vec<u8> = decrypt(&w, key).iter().flat_map(|x| x.to_le_bytes()).collect();
+                if full < body.len() {
+                    // this library enciphers the 1-3 tail bytes with key + dword count (noted in DESIGN as a StormLib deviation)
+                    let mut last = [0u8; 4]; last[..body.len() - full].copy_from_slice(&body[full..]);
+                    let d = decrypt(&[u32::from_le_bytes(last)], key.wrapping_add((full / 4) as u32))[0].to_le_bytes();
+                    dec.extend_from_slice(&d[..body.len() - full]);
+                }
+                body = dec;
+            }
+            if csize < fsize {
+                if flags & 0x0000_0200 == 0 || body.is_empty() || body[0] != 0x02 { return fail("mpq_interop", format!("compressed file {}", name), format!("flags {:#010x}, method byte {:?}", flags, body.first()), "COMPRESS flag and zlib method byte 0x02 after decryption with the published key formula".into()); }
+                use std::io::Read;
+                let mut out = Vec::new();
+                if flate2::read::ZlibDecoder::new(&body[1..]).read_to_end(&mut out).is_err() { return fail("mpq_interop", format!("independent extraction of {} (zlib, FIX_KEY, {} -> {} bytes)", name, csize, fsize), "payload does not inflate after decryption with (hash(name,0x300) + pos) ^ uncompressed size".into(), "valid zlib stream".into()); }
+                body = out;
+            }
+            if &body != data { return fail("mpq_interop", format!("independent extraction of {} ({} bytes, encrypted={}, fix_key={}) with the published key formula (hash(name,0x300) + pos) ^ size", name, data.len(), enc, fix), "different bytes".into(), "the added bytes".into()); }
+        }
+    }
+    none("mpq_interop", tried)
 }
